@@ -134,7 +134,7 @@ recorded classes, it answers exactly like the tree engine. -/
 theorem stage2_eq (hash : Bytes → Nat) (sat : Nat → Bytes → Bool) (noRoute : Bool) (script : List Reg) (R : List Route)
     (hR : specRoutes script = some R) (hN : normal R = true) (hg : GoodR R)
     (hstd : ∀ g ∈ script, g.method ∈ stdMethods) (req : Req) (hp : req.path.head? = some '/')
-    (hS : dShadow1 R req.method (cutAny req.path) = false) (hNm : dNames1 R req.method (cutAny req.path) = false)
+    (hS : dShadow1 R req.method (cutAny req.path) = false) (hNm : dSameShape1 R req.method (cutAny req.path) = false)
     (hC : dCfall1 sat R req.method (cutAny req.path) = false)
     (hO : dOrder1 sat R req.method (cutAny req.path) = false)
     (cr : CRoute) (e : Extract)
@@ -242,29 +242,22 @@ theorem stage2_eq (hash : Bytes → Nat) (sat : Nat → Bytes → Bool) (noRoute
           rw [hb2] at this; exact absurd this (by simp)
         · exact hne hρ1.symm
         · exact hlast ρ hρ2 ⟨by rw [hρm, hcm], htext⟩
-      · -- same shape, different pattern: a parameter is named differently (class `names`)
-        obtain ⟨i, n1, n2, hpre, ha, hbb, hnn⟩ := names_differ r.pat ρ.pat hshape hpp
+      · -- same shape, different pattern: a parameter is named differently (class `overwrite`, same-shape part)
         have hdyn : r ∈ dynRoutes R req.method := by
           simp only [dynRoutes, List.mem_filter, decide_eq_true_eq]
           exact ⟨hrR, hcm, by simp [hns]⟩
-        have hi : i < ρ.pat.length := by
-          rcases Nat.lt_or_ge i ρ.pat.length with h | h
-          · exact h
-          · rw [List.getElem?_eq_none h] at hbb; cases hbb
-        have : dNames1 R req.method (cutAny req.path) = true := by
-          simp only [dNames1, hstat, Bool.not_false, Bool.true_and, hrho]
+        have : dSameShape1 R req.method (cutAny req.path) = true := by
+          simp only [dSameShape1, hstat, Bool.not_false, Bool.true_and, hrho]
           apply List.any_eq_true.mpr
           refine ⟨r, hdyn, ?_⟩
-          apply List.any_eq_true.mpr
-          refine ⟨i, List.mem_range.mpr hi, ?_⟩
-          simp [hpre, ha, hbb, hnn]
+          simp [hshape, hpp]
         rw [hNm] at this; exact absurd this (by simp)
     · exact hne hr1
     · have := h2 r hr2
       rw [hadm' ρ hρc] at this; exact absurd this (by simp)
   subst hrρ
   -- both engines serve r with the bindings b
-  have hlook := lemma_lookupM sat noRoute script R hR hN hstd req.method req.path hp hS hNm hC
+  have hlook := lemma_lookupM sat noRoute script R hR hN hstd req.method req.path hp hS hC
   rw [href] at hlook
   simp only [Option.map_some, hrm, Option.getD_some] at hlook
   rw [lemma_serve_lookup, hlook]
